@@ -59,6 +59,11 @@ class Ctx:
         self.rules.setdefault(rid, {"desc": desc, "instances": 0, "floor": floor,
                                     "nontrivial": set(), "violations": 0})
 
+    def cur(self, rid: str):
+        if rid not in self.rules:
+            raise KeyError(rid)
+        self._cur = rid
+
     def inst(self, construct: str, nontrivial: bool = True, sample: Any = None,
              rule: str | None = None):
         """Record one evaluated rule instance (obligation)."""
@@ -158,7 +163,7 @@ def run_property(prop: str, run: Callable[[Ctx], None], src_root: str, tier: str
                 if k["key"] not in seen_keys:
                     stale.append(k)
 
-    replay_dir = os.path.join(EVIDENCE_DIR, "replay")
+    replay_dir = os.path.join(os.path.dirname(evidence_path), "replay")
     if violations:
         os.makedirs(replay_dir, exist_ok=True)
     for i, f in enumerate(violations, 1):
